@@ -423,7 +423,31 @@ impl<'a> Vis<'a> {
                 expected: "one callback per position in increasing order with the window of the protocol model; out[i] = result of call i".into(),
                 got: format!("{why}; trace {}", truncate(&format!("{got:?}"), 300)),
             });
-        } else if self.ctx.samples.len() < 3 && len == 4 && w == 3 && bname.starts_with("VecDeque(head=6") {
+        }
+        // a second series that is longer than the first (the drivers accept it): the protocol and the output
+        // length are those of the first series
+        if len <= 4 && w <= len + 3 && matches!(d, Driver::Apply2 | Driver::ApplyIdx2 | Driver::Custom2 | Driver::Apply2To | Driver::ApplyIdx2To) {
+            let y2: Vec<i64> = (0..len as i64 + 2).map(|i| 100 + i).collect();
+            let other2: Vec<i32> = y2.iter().map(|v| *v as i32).collect();
+            let got2 = run_driver::<V, T, O, OT>(d, v, &other2, w, path);
+            self.ctx.eval(fam, match &got2 {
+                Outcome::Ok((e, c)) => mix(hash_cells(c), hash_bytes(format!("{e:?}").as_bytes())),
+                Outcome::Panic(m) => hash_bytes(m.as_bytes()),
+            });
+            self.ctx.transitions += len as u64;
+            if let Err(why) = judge_trace(&got2, &x, &y2, w) {
+                let finding = if oname == "Int32Chunked" && why.contains("polars backend do not support set") { Some("F29".to_string()) } else { None };
+                self.ctx.violation(Violation {
+                    entry: format!("{d:?} (longer second series)"),
+                    finding,
+                    size: len * 100 + w,
+                    case: json!({"family": fam, "driver": format!("{d:?}"), "backend": bname, "elem": self.tyname, "output": oname, "path": format!("{path:?}"), "len": len, "second_len": len + 2, "w": w}),
+                    expected: "one callback per position of the first series in increasing order with the window of the protocol model; output as long as the first series".into(),
+                    got: format!("{why}; trace {}", truncate(&format!("{got2:?}"), 300)),
+                });
+            }
+        }
+        if self.ctx.samples.len() < 3 && len == 4 && w == 3 && bname.starts_with("VecDeque(head=6") {
             if let Outcome::Ok((e, c)) = &got {
                 self.ctx.sample(json!({"driver": format!("{d:?}"), "backend": bname, "output": oname, "len": len, "w": w, "trace": format!("{e:?}"), "out": show_cells(c)}));
             }
